@@ -1,4 +1,4 @@
-\* ShardedMailbox with the repaired finishShardDrain (FixF3): 2 producers x 2 Submit, 2 shards (every placement), 2 slots per shard, 2 workers, single-item batches, Close anywhere.
+\* ShardedMailbox as the code is (FixF3): 2 producers x 2 Submit, 2 shards (every placement), 2 slots per shard, 2 workers, single-item batches, Close anywhere.
 SPECIFICATION Spec
 CONSTANTS
   NP = 2
